@@ -182,6 +182,9 @@ func TsigGenerateWithProvider(m *Msg, provider TsigProvider, requestMAC string, 
 	}
 
 	// Defaults are for the signer only: what is verified is what was received.
+	// They go into a copy, the caller's stub asks for them again the next time m is signed.
+	stub := *rr
+	rr = &stub
 	if rr.TimeSigned == 0 {
 		rr.TimeSigned = uint64(time.Now().Unix())
 	}
